@@ -278,7 +278,7 @@ func vtC09CfgExec(in []int64) []int64 {
 
 func vtC09CfgGen(r *rand.Rand, i int) (string, []int64) {
 	_, b := vtC09BGen(r, i)
-	body := append([]int64(nil), b[2:len(b)-3]...) // without the third-party allocation (stream batch)
+	body := append([]int64(nil), b[2:len(b)-5]...) // without the third-party allocation and the normalization ratio (stream batch)
 
 	degrades := []int64{15}
 	pct := func() int64 {
